@@ -89,6 +89,7 @@ Definition xpow_real (x y : R) : xreal :=
 Inductive val :=
 | VNone | VBool (b : bool) | VInt (z : Z) | VNum (x : xreal) | VStr (s : string)
 | VList (l : list val) | VTuple (l : list val) | VDict (d : list (val * val))
+| VArr (l : list val)        (* a numpy array (rows of a matrix are nested lists): arithmetic is elementwise, unlike Python lists *)
 | VObj (cls : string) (fields : list (string * val))
 | VMod (name : string).
 
@@ -111,7 +112,7 @@ Fixpoint val_eqb3 (a b : val) {struct a} : option bool :=
   | VInt x, VInt y => Some (Z.eqb x y)
   | VNum _, VNum _ | VInt _, VNum _ | VNum _, VInt _ => None
   | VStr x, VStr y => Some (String.eqb x y)
-  | VList x, VList y | VTuple x, VTuple y =>
+  | VList x, VList y | VTuple x, VTuple y | VArr x, VArr y =>
       (fix go (l1 l2 : list val) : option bool :=
          match l1, l2 with
          | [], [] => Some true
@@ -126,7 +127,7 @@ Fixpoint val_eqb (a b : val) {struct a} : bool :=
   | VBool x, VBool y => Bool.eqb x y
   | VInt x, VInt y => Z.eqb x y
   | VStr x, VStr y => String.eqb x y
-  | VList x, VList y | VTuple x, VTuple y =>
+  | VList x, VList y | VTuple x, VTuple y | VArr x, VArr y =>
       (fix go (l1 l2 : list val) : bool :=
          match l1, l2 with [], [] => true | p :: r, q :: s => val_eqb p q && go r s | _, _ => false end) x y
   | VMod x, VMod y => String.eqb x y
@@ -137,7 +138,7 @@ Definition truthy (v : val) : option bool :=
   match v with
   | VNone => Some false | VBool b => Some b | VInt z => Some (negb (Z.eqb z 0))
   | VNum _ => None | VStr s => Some (negb (String.eqb s ""))
-  | VList l | VTuple l => Some (match l with [] => false | _ => true end)
+  | VList l | VTuple l | VArr l => Some (match l with [] => false | _ => true end)
   | VDict d => Some (match d with [] => false | _ => true end)
   | _ => Some true
   end.
